@@ -161,7 +161,12 @@ solveNormalizedCubic (T r, T s, T t, T x[3])
             return sign * std::pow (sign * a, T (1) / x);
         };
 
-        T u = real_root (-q / 2 + std::sqrt (D), 3);
+        // Take the root of the larger-magnitude value of -q/2 +- sqrt(D):
+        // with the + sign u is zero for p == 0, q > 0 (division by zero
+        // below, e.g. x^3 + 1 = 0 returned NaN) and suffers cancellation
+        // for small p.
+        T u = real_root (
+            (q > 0) ? -q / 2 - std::sqrt (D) : -q / 2 + std::sqrt (D), 3);
         T v = -p / (T (3) * u);
 
         x[0] = u + v - r / 3;
